@@ -31,11 +31,15 @@ Definition issue (k : ikey) (o : ioffer) (r : ireq) (values : list (string * str
   ROk {| is_key := ik_id k; is_values := norm_values values; is_link := ir_link r; is_blinding := ir_blinding r;
          is_nonce := ir_nonce r; is_altered := false |}.
 
-(* prover::process_credential (both forms; [fed] = build_credential_values of what the credential shows) *)
+(* build_credential_values on the holder's side: the values the credential shows, then the holder's link secret under
+   the name master_secret -- an entry of that (normalised) name among the values is replaced by it *)
+Definition holder_values (fed : list (string * string)) : list (string * string) :=
+  List.filter (fun kv => negb (String.eqb (fst kv) "master_secret")) (norm_values fed).
+(* prover::process_credential (both forms; [fed] = what the credential shows) *)
 Definition process (s : isig) (fed : list (string * string)) (cd_key link md_blinding md_nonce : N) : res unit :=
   guard (negb (is_altered s) && N.eqb cd_key (is_key s) && N.eqb link (is_link s)
          && N.eqb md_blinding (is_blinding s) && N.eqb md_nonce (is_nonce s)
-         && values_agree (norm_values fed) (is_values s)).
+         && values_agree (holder_values fed) (is_values s)).
 
 (* what a processed credential is, for the prover / verifier models *)
 Definition source_of (s : isig) : source :=
